@@ -415,6 +415,15 @@ def binary_run(ctx):
                 ctx.case_done(("bin", deriv, zoom, ds), True)
 
 
+def program_level(ctx):
+    """(family scaling) the inovesa binary without impedance on small grids: every record, every bunch, against the
+    second-moment recurrence with a = 2 pi/N, t = tan a and e1 = 2/(f_s t_damp N) implied by the command line, against the
+    recorded profiles of the same record, and the monotone clauses (lib/scaling_cases.py)"""
+    import scaling_cases as sc
+    tg = ctx.build(harness=("impl_fp", "h5cat"), want_binary=True)
+    sc.run_moments(ctx, tg, sc.c04_cases(ctx, ctx.quick()), dict(kind="program"))
+
+
 def run(ctx):
     ctx.rule = ("evo cases: one bunch, n 32/48/64, zoom 0.5/1/2, shapes gauss/flat/ring/tilted, it 3..4, both stencils x four variants, "
                 "24..64 steps per synchrotron period, e1 0.005..0.03, 8-12 damping times (full), RFKickMap(linear)+DriftMap+FokkerPlanckMap "
@@ -430,6 +439,7 @@ def run(ctx):
         oracle(ctx, c, res[c.cid], dis)
     ctx.sample(cases[0].describe())
     ctx.sample(cases[4].describe())
+    program_level(ctx)
     if not ctx.quick():
         binary_run(ctx)
     ctx.extra["correspondence_disagreements"] = len(dis)
@@ -440,4 +450,16 @@ def run(ctx):
 
 
 def replay(ctx, rp):
+    c = rp.get("case") or {}
+    if c.get("kind") == "program-moments":
+        import scaling_cases as sc, tempfile, shutil
+        tg = ctx.build(harness=("impl_fp", "h5cat"), want_binary=True)
+        work = tempfile.mkdtemp(prefix="pmom-")
+        try:
+            sc.run_moments_case(ctx, tg, work, c, dict(kind="program"))
+        finally:
+            shutil.rmtree(work, ignore_errors=True)
+        ctx.case_done(("program-moments", "replay"), True)
+        ctx.rule = "replay of one recorded program-level case"
+        return
     run(ctx)
